@@ -138,6 +138,12 @@ def replay(beh, tier, seed, opts):
             ccs = [comp.compile(c) for c in circuits]
             for r in range(beh["resets"] + 1):
                 if r > 0:
+                    # the parameters have changed since the last initialisation (training):
+                    # overwrite every tensor, then reset; the initialiser must apply again
+                    with torch.no_grad():
+                        for tp in params:
+                            ten, idx = comp.state.retrieve_compiled_parameter(tp)
+                            ten()[idx].fill_(7.5)
                     for cc in ccs:
                         cc.reset_parameters()
                 for n, (t, tp) in enumerate(zip(ts, params)):
